@@ -2,6 +2,7 @@
 from __future__ import annotations
 
 import itertools
+import logging
 import math
 
 import numpy as np
@@ -25,6 +26,8 @@ ASSUMPTIONS = [
 ]
 EXHAUSTIVE = {"quick": False, "thorough": False}
 
+logging.getLogger().setLevel(logging.ERROR)  # pyttb warns about every non-F-ordered array it has to copy
+
 REDUCERS = {
     "sum": np.sum,
     "sumsq": lambda v: np.sum(np.asarray(v) * np.asarray(v)),
@@ -41,6 +44,76 @@ ZERO_INSENSITIVE = {"sum", "sumsq", "sumabs", "count"}
 # ----------------------------------------------------------------------------
 # holders: JSON <-> pyttb <-> numpy
 # ----------------------------------------------------------------------------
+def fnum(x):
+    """case number (int or "n/d") -> exact Fraction"""
+    from fractions import Fraction
+    if isinstance(x, str):
+        n, _, d = x.partition("/")
+        return Fraction(int(n), int(d or 1))
+    return Fraction(x)
+
+
+def fl(x):
+    """case number -> float (exact: denominators are powers of two)"""
+    return float(fnum(x))
+
+
+#: memory layouts / views in which an array operand is handed to the implementation
+LAYOUTS = ["C", "F", "strided", "T"]
+
+
+def lay_arr(a, lay, k=0):
+    """the same logical array in another memory layout (C / F contiguous, a strided view of a bigger
+    buffer, a transposed view); "mix" picks one per operand index k"""
+    a = np.asarray(a, dtype=float)
+    if lay == "mix":
+        lay = LAYOUTS[k % len(LAYOUTS)]
+    if lay in (None, "C") or a.ndim == 0:
+        return np.ascontiguousarray(a)
+    if lay == "F":
+        return np.asfortranarray(a)
+    if lay == "T":
+        return np.ascontiguousarray(a.T).T
+    if lay == "strided":
+        big = np.full(tuple(2 * s + 1 for s in a.shape), 77.0)
+        view = big[tuple(slice(1, None, 2) for _ in a.shape)]
+        view[...] = a
+        return view
+    if lay == "col":
+        return np.ascontiguousarray(a).reshape(-1, 1)
+    if lay == "row":
+        return np.ascontiguousarray(a).reshape(1, -1)
+    raise ValueError(lay)
+
+
+#: patterns of Kruskal weight vectors (shortcuts on "all weights are 1" / "no weight is 1" / zeros)
+WEIGHT_PATTERNS = ["ones", "none1", "mixed1", "zero", "neg", "frac", "any"]
+
+
+def weights_of(rng, R, pattern=None):
+    pattern = pattern or rng.choice(WEIGHT_PATTERNS)
+    non1 = [-3, -2, -1, 2, 3, "1/2", "-3/2", "5/4"]
+    if pattern == "ones":
+        return [1] * R
+    if pattern == "none1":
+        return [rng.choice(non1) for _ in range(R)]
+    if pattern == "mixed1":  # some exactly 1, some not (needs R >= 2 to be a real mix)
+        w = [1] + [rng.choice(non1) for _ in range(R - 1)]
+        if R >= 3 and rng.random() < 0.5:
+            w[1] = 1
+        rng.shuffle(w)
+        return w
+    if pattern == "zero":
+        w = [0] + [rng.choice([1] + non1) for _ in range(R - 1)]
+        rng.shuffle(w)
+        return w
+    if pattern == "neg":
+        return [rng.choice([-1, -2, -3, "-1/2"]) for _ in range(R)]
+    if pattern == "frac":
+        return [rng.choice(["1/2", "-3/2", "5/4", "3/4", 1]) for _ in range(R)]
+    return [rng.choice([-2, -1, 0, 1, 2, 3, "1/2"]) for _ in range(R)]
+
+
 def mat_rows(a):
     return [[int(x) for x in row] for row in np.asarray(a).tolist()]
 
@@ -70,7 +143,7 @@ def h_sparse(A, rng=None, order=None):
 def h_kruskal(rng, shape, R=None, weights=None, lo=-2, hi=2):
     R = R or rng.randint(1, 3)
     if weights is None:
-        weights = [rng.choice([-2, -1, 0, 1, 2, 3]) for _ in range(R)]
+        weights = weights_of(rng, R)
     return {"kind": "kruskal", "weights": list(weights), "factors": [rand_mat(rng, s, R, 0.15, lo, hi) for s in shape]}
 
 
@@ -78,6 +151,19 @@ def h_tucker(rng, shape, lo=-2, hi=2):
     cs = [rng.randint(1, 3) for _ in shape]
     core = np.array(gen.dense_data(rng, cs, 0.2), dtype=int).reshape(cs, order="F") if cs else np.array(1)
     core = np.clip(core, -3, 3)
+    pat = rng.choice(["rand", "rand", "ones", "diag1", "zero", "mixed1"])
+    if pat == "ones":
+        core = np.ones_like(core)
+    elif pat == "zero":
+        core = np.zeros_like(core)
+    elif pat == "diag1" and cs:
+        core = np.zeros_like(core)
+        for r in range(min(cs)):
+            core[(r,) * len(cs)] = 1
+    elif pat == "mixed1" and core.size:
+        flat = core.flatten(order="F")
+        flat[rng.randrange(flat.size)] = 1
+        core = flat.reshape(cs, order="F")
     return {"kind": "tucker", "core": {"shape": cs, "data": [int(x) for x in core.flatten(order="F")]},
             "factors": [rand_mat(rng, s, c, 0.15, lo, hi) for s, c in zip(shape, cs)]}
 
@@ -113,7 +199,7 @@ def to_array(h):
         for i in itertools.product(*[range(s) for s in shape]):
             tot = 0
             for r, w in enumerate(h["weights"]):
-                p = w
+                p = fnum(w) if isinstance(w, str) else w
                 for n, f in enumerate(h["factors"]):
                     p *= f[i[n]][r]
                 tot += p
@@ -149,19 +235,24 @@ def h_shape(h):
     return h_shape(h["parts"][0])
 
 
-def build(h):
+def build(h, lay=None):
+    """pyttb object for a holder; `lay` = memory layout of the arrays handed to the constructors"""
     k = h["kind"]
     if k == "dense":
-        return gen.mk_tensor(ttb, h["shape"], h["data"])
+        a = np.array([fl(x) for x in h["data"]], dtype=float).reshape(tuple(h["shape"]), order="F")
+        return ttb.tensor(lay_arr(a, lay), copy=True)
     if k == "sparse":
         return gen.mk_sptensor(ttb, h["shape"], h["subs"], h["vals"])
     if k == "kruskal":
-        return gen.mk_ktensor(ttb, h["weights"], h["factors"])
+        R = len(h["weights"])
+        fs = [lay_arr(np.array(f, dtype=float).reshape(len(f), R), lay, j) for j, f in enumerate(h["factors"])]
+        return ttb.ktensor(fs, np.array([fl(w) for w in h["weights"]], dtype=float))
     if k == "tucker":
-        core = gen.mk_tensor(ttb, h["core"]["shape"], h["core"]["data"])
-        return ttb.ttensor(core, [np.array(f, dtype=float).reshape(len(f), c) for f, c in zip(h["factors"], h["core"]["shape"])])
+        core = build({"kind": "dense", **h["core"]}, lay)
+        return ttb.ttensor(core, [lay_arr(np.array(f, dtype=float).reshape(len(f), c), lay, j)
+                                  for j, (f, c) in enumerate(zip(h["factors"], h["core"]["shape"]))])
     if k == "sum":
-        return ttb.sumtensor([build(p) for p in h["parts"]])
+        return ttb.sumtensor([build(p, lay) for p in h["parts"]])
     raise ValueError(k)
 
 
@@ -314,6 +405,11 @@ def pick_shape(rng, nmin=1, nmax=4, smax=4):
     return s
 
 
+def distinct_shape(rng, N, lo=2, hi=5):
+    """pairwise distinct extents >= 2 (non-palindromic in every pair of modes)"""
+    return rng.sample(range(lo, max(hi, lo + N - 1) + 1), N)
+
+
 def rand_array(rng, shape, zero_share=0.3, lo=-4, hi=4):
     vals = [0 if rng.random() < zero_share else rng.choice([v for v in range(lo, hi + 1) if v]) for _ in range(gen.numel(shape))]
     return np.array(vals, dtype=int).reshape(tuple(shape), order="F")
@@ -337,17 +433,28 @@ def rand_holder(rng, kind, shape):
         return h_tucker(rng, shape)
     if kind == "sum":
         kinds = [rng.choice(["dense", "sparse", "kruskal", "tucker"]) for _ in range(rng.randint(1, 3))]
-        return {"kind": "sum", "parts": [rand_holder(rng, k, shape) for k in kinds]}
+        parts = [rand_holder(rng, k, shape) for k in kinds]
+        how = rng.random()
+        if how < 0.15:      # the same part twice
+            parts.append(parts[0])
+        elif how < 0.3:     # a part that is identically zero
+            parts.append(h_sparse(np.zeros(tuple(shape), dtype=int)))
+        elif how < 0.4:     # a Kruskal part with unit weights next to one without
+            parts.append(h_kruskal(rng, shape, weights=None))
+            parts.append(h_kruskal(rng, shape, R=2, weights=[1, 1]))
+        return {"kind": "sum", "parts": parts}
     raise ValueError(kind)
 
 
 def five_ways(rng, shape):
     """the same array held as dense, sparse, Kruskal, Tucker and sum"""
-    K = h_kruskal(rng, shape, lo=-2, hi=2)
+    R = rng.randint(1, 3)
+    w = [x if not isinstance(x, str) else rng.choice([-2, 2, 3]) for x in weights_of(rng, R)]
+    K = h_kruskal(rng, shape, R=R, weights=w, lo=-2, hi=2)
     A = to_array(K).astype(int)
     T = tucker_of_kruskal(K)
     D1 = rand_array(rng, shape, 0.5, -2, 2)
-    K2 = h_kruskal(rng, shape, R=1, lo=-1, hi=1)
+    K2 = h_kruskal(rng, shape, R=1, weights=[rng.choice([-1, 1, 2])], lo=-1, hi=1)
     rest = A - D1 - to_array(K2).astype(int)
     S = {"kind": "sum", "parts": [h_dense(D1), K2, h_sparse(rest, rng)]}
     return {"dense": h_dense(A), "sparse": h_sparse(A, rng), "kruskal": K, "tucker": T, "sum": S}
@@ -373,9 +480,11 @@ def mat_arg(rows):
 
 def run_impl(c):
     op = c["op"]
-    X = build(c["X"]) if "X" in c else None
+    lay = c.get("lay")
+    X = build(c["X"], lay) if "X" in c else None
     if op == "ttv":
-        vs = [np.array(v, dtype=float) for v in c["vs"]]
+        vlay = c.get("vlay", lay)
+        vs = [lay_arr(np.array(v, dtype=float), vlay, j) for j, v in enumerate(c["vs"])]
         kw = {}
         if c["dims"] is not None:
             kw["dims"] = arr(c["dims"])
@@ -383,7 +492,7 @@ def run_impl(c):
             kw["exclude_dims"] = arr(c["excl"])
         return canon(X.ttv(vs, **kw))
     if op == "ttm":
-        Ms = [np.array(m["rows"], dtype=float).reshape(m["m"], m["n"]) for m in c["Ms"]]
+        Ms = [lay_arr(np.array(m["rows"], dtype=float).reshape(m["m"], m["n"]), lay, j) for j, m in enumerate(c["Ms"])]
         kw = {"transpose": c["tr"]}
         if c["dims"] is not None:
             kw["dims"] = arr(c["dims"])
@@ -395,14 +504,14 @@ def run_impl(c):
     if op in ("mttkrp", "mttkrps"):
         U = c["U"]
         if "kruskal" in U:
-            Uo = gen.mk_ktensor(ttb, U["kruskal"]["weights"], U["kruskal"]["factors"])
+            Uo = build({"kind": "kruskal", **U["kruskal"]}, lay)
         else:
-            Uo = [np.array(f, dtype=float) for f in U["list"]]
+            Uo = [lay_arr(np.array(f, dtype=float), lay, j) for j, f in enumerate(U["list"])]
         if op == "mttkrp":
             return canon(np.asarray(X.mttkrp(Uo, c["n"])))
         return [canon(np.asarray(v)) for v in X.mttkrps(Uo)]
     if op == "innerprod":
-        return canon(X.innerprod(build(c["Y"])))
+        return canon(X.innerprod(build(c["Y"], lay)))
     if op == "norm":
         return canon(X.norm())
     if op == "contract":
@@ -414,13 +523,16 @@ def run_impl(c):
         return canon(X.collapse(arr(c["dims"]), f))
     if op == "scale":
         F = c["F"]
+        fk = c.get("fk", F["kind"])
         if F["kind"] == "array":
-            Fo = np.array(F["data"], dtype=float)
+            Fo = lay_arr(np.array(F["data"], dtype=float), lay)
+        elif fk == "ndarray":   # a raw N-d numpy array over the scaled modes, in the requested layout
+            Fo = lay_arr(np.array(F["data"], dtype=float).reshape(tuple(F["shape"]), order="F"), lay)
         else:
-            Fo = build(F)
+            Fo = build(F, lay)
         return canon(X.scale(Fo, arr(c["dims"])))
     if op == "ttt":
-        Y = build(c["Y"])
+        Y = build(c["Y"], lay)
         if not c["xd"] and c.get("outer"):
             return canon(X.ttt(Y))
         return canon(X.ttt(Y, arr(c["xd"]), arr(c["yd"])))
@@ -431,7 +543,7 @@ def run_impl(c):
 
 def request(c):
     op = c["op"]
-    r = {k: v for k, v in c.items() if k not in ("op", "valid", "tag", "single", "outer")}
+    r = {k: v for k, v in c.items() if k not in ("op", "valid", "tag", "single", "outer", "lay", "vlay", "fk")}
     r["op"] = "c02_" + op
     if op == "ttm":
         pass
@@ -522,8 +634,12 @@ class TtvFam(C02Family):
         byMode = {d: vec(rng, shape[d]) for d in range(N)}
         vs, dims, excl = designate(rng, N, sel, conv, byMode, shuffle)
         sel = sorted(sel)
-        return {"op": "ttv", "X": X, "vs": vs, "dims": dims, "excl": excl, "sel": sel, "ws": [byMode[d] for d in sel],
-                "tag": [conv, f"sel{len(sel)}of{N}"] + list(tag)}
+        c = {"op": "ttv", "X": X, "vs": vs, "dims": dims, "excl": excl, "sel": sel, "ws": [byMode[d] for d in sel],
+             "tag": [conv, f"sel{len(sel)}of{N}"] + list(tag)}
+        if X["kind"] == "kruskal" and rng.random() < 0.5:   # ktensor.ttv also takes column / row arrays
+            c["vlay"] = rng.choice(["col", "row"])
+            c["tag"].append(f"vec:{c['vlay']}")
+        return c
 
     def gen(self, rng, tier):
         out = []
@@ -562,7 +678,13 @@ class TtvFam(C02Family):
             total = len(cells)
             k = rng.choice(sorted({0, 1, total // 2, min(total, total // 2 + 1), max(0, (total - 1) // 2), total}))
             A = np.zeros(tuple(shape), dtype=int)
-            for cell in rng.sample(cells, k):
+            pool = cells
+            edge = rng.choice(["any", "last-empty", "first-empty"])
+            if edge == "last-empty" and k < total:      # trailing result cells stay empty (length inferred from data?)
+                pool = cells[:-1]
+            elif edge == "first-empty" and k < total:
+                pool = cells[1:]
+            for cell in rng.sample(pool, min(k, len(pool))):
                 full = [0] * N
                 for d, x in zip(rem, cell):
                     full[d] = x
@@ -598,7 +720,7 @@ class TtvFam(C02Family):
                     continue
             c["valid"] = False
             out.append(c)
-        return out
+        return with_layouts(rng, out)
 
 
 class TtmFam(C02Family):
@@ -651,16 +773,31 @@ class TtmFam(C02Family):
             m["n"] += 1
             c["valid"] = False
             out.append(c)
-        return out
+        return with_layouts(rng, out)
 
 
-def k_operand(rng, shape, as_kruskal, R=None, weights=None):
-    R = R or rng.randint(1, 3)
+def k_operand(rng, shape, as_kruskal, R=None, weights=None, pattern=None):
+    """operand of an mttkrp: factor list, or Kruskal tensor whose weights follow `pattern`
+    (all ones / none one / ones mixed with others / with zeros / negative / fractional)"""
+    if as_kruskal and weights is None:
+        pattern = pattern or rng.choice(WEIGHT_PATTERNS)
+        R = R or (rng.randint(2, 3) if pattern in ("mixed1", "zero") else rng.randint(1, 3))
+        weights = weights_of(rng, R, pattern)
+    R = R or (len(weights) if weights else rng.randint(1, 3))
     fs = [rand_mat(rng, s, R) for s in shape]
     if as_kruskal:
-        w = weights or [rng.choice([-2, -1, 0, 2, 3]) for _ in range(R)]
-        return {"kruskal": {"weights": w, "factors": fs}}, fs, w
+        return {"kruskal": {"weights": weights, "factors": fs}}, fs, weights
     return {"list": fs}, fs, [1] * R
+
+
+def with_layouts(rng, cases):
+    """every case gets a memory layout for its array operands (the model is layout-free)"""
+    for c in cases:
+        if "lay" not in c:
+            c["lay"] = rng.choice(["C", "F", "strided", "T", "mix"])
+            c.setdefault("tag", [])
+            c["tag"] = list(c["tag"]) + [f"lay:{c['lay']}"]
+    return cases
 
 
 class MttkrpFam(C02Family):
@@ -671,16 +808,20 @@ class MttkrpFam(C02Family):
         out = []
         kinds = ["dense", "sparse", "kruskal", "tucker", "sum"]
         reps = 2 if tier == "quick" else 10
+        pat = 0
         for N in range(2, 5):
             for kind in kinds:
                 for _ in range(reps):
                     shape = pick_shape(rng, N, N, 3 if N == 4 else 4)
                     for n in range(N):
                         for ask in (False, True):
-                            U, fs, lam = k_operand(rng, shape, ask)
+                            # every weight pattern comes round for every holder kind and branch
+                            pattern = WEIGHT_PATTERNS[pat % len(WEIGHT_PATTERNS)]
+                            pat += int(ask)
+                            U, fs, lam = k_operand(rng, shape, ask, pattern=pattern)
                             br = "first" if n == 0 else ("last" if n == N - 1 else "middle")
                             out.append({"op": "mttkrp", "X": rand_holder(rng, kind, shape), "U": U, "n": n, "fs": fs,
-                                        "lam": lam, "tag": [br, "kruskalU" if ask else "listU"]})
+                                        "lam": lam, "tag": [br] + ([f"kruskalU", f"w:{pattern}"] if ask else ["listU"])})
         for _ in range(3 if tier == "quick" else 20):  # malformed: a factor with the wrong number of rows
             shape = pick_shape(rng, 2, 3)
             U, fs, lam = k_operand(rng, shape, False)
@@ -689,7 +830,7 @@ class MttkrpFam(C02Family):
             U["list"][m] = U["list"][m] + [U["list"][m][0]]
             out.append({"op": "mttkrp", "X": rand_holder(rng, rng.choice(kinds), shape), "U": U, "n": n, "fs": fs,
                         "lam": lam, "valid": False})
-        return out
+        return with_layouts(rng, out)
 
 
 class MttkrpsFam(C02Family):
@@ -703,7 +844,7 @@ class MttkrpsFam(C02Family):
             U, fs, lam = k_operand(rng, shape, rng.random() < 0.5)
             out.append({"op": "mttkrps", "X": rand_holder(rng, "dense", shape), "U": U, "fs": fs, "lam": lam,
                         "tag": ["kruskalU" if "kruskal" in U else "listU"]})
-        return out
+        return with_layouts(rng, out)
 
 
 class InnerFam(C02Family):
@@ -739,7 +880,7 @@ class InnerFam(C02Family):
             s2[0] += 1
             out.append({"op": "innerprod", "X": rand_holder(rng, rng.choice(yk), shape),
                         "Y": rand_holder(rng, rng.choice(yk), s2), "valid": False})
-        return out
+        return with_layouts(rng, out)
 
 
 class ContractCollapseScaleFam(C02Family):
@@ -767,7 +908,7 @@ class ContractCollapseScaleFam(C02Family):
                         out.append({"op": "contract", "X": rand_holder(rng, kind, s2), "a": a, "b": b, "valid": False})
                 # collapse: every subset, sorted / shuffled / default
                 for N in range(1, 5 if tier == "thorough" else 4):
-                    shape = pick_shape(rng, N, N, 3 if N == 4 else 4)
+                    shape = distinct_shape(rng, N, 2, 4) if N <= 3 else pick_shape(rng, N, N, 3)
                     for sel in subsets(N):
                         for fn in (["sum"] + rng.sample(["sumsq", "sumabs", "count", "max", "min", "prod"], 2 if tier == "quick" else 6)):
                             dims = list(sel)
@@ -777,27 +918,44 @@ class ContractCollapseScaleFam(C02Family):
                             X = rand_holder(rng, kind, shape)
                             out.append({"op": "collapse", "X": X, "dims": dims, "fun": fn, "sel": sorted(sel),
                                         "tag": [fn, f"sel{len(sel)}of{N}"]})
-                # scale
+                # scale: every non-empty subset of modes, distinct extents (so that a C-order / F-order or a
+                # mode-order slip cannot cancel), every accepted kind of factor, every memory layout
                 for N in range(1, 5 if tier == "thorough" else 4):
-                    shape = pick_shape(rng, N, N, 3 if N == 4 else 4)
+                    shape = distinct_shape(rng, N)
                     for sel in subsets(N):
                         fshape = [shape[d] for d in sel]
-                        for fk in ("dense", "sparse", "array"):
-                            if fk == "array" and len(sel) != 1:
-                                continue
-                            if kind == "dense" and fk == "sparse":
-                                continue
-                            FA = rand_array(rng, fshape, 0.25)
-                            F = h_dense(FA) if fk == "dense" else (h_sparse(FA, rng) if fk == "sparse" else {"kind": "array", "data": [int(x) for x in FA]})
+                        plans = [("tensor", None)]
+                        if kind == "sparse":
+                            plans.append(("sptensor", None))
+                        if len(sel) == 1:
+                            plans += [("array", "C"), ("array", "strided")]
+                        if kind == "dense":   # raw N-d ndarray factors (1-d for a single mode)
+                            lays = ["C", "F", "strided", "T"]
+                            k0 = rng.randrange(4)
+                            plans += [("ndarray", "C"), ("ndarray", lays[1 + k0 % 3])]
+                            if tier == "thorough":
+                                plans += [("ndarray", l) for l in lays]
+                        for fk, flay in plans:
+                            FA = rand_array(rng, fshape, 0.2)
+                            if fk == "sptensor":
+                                F = h_sparse(FA, rng)
+                            elif fk == "array":
+                                F = {"kind": "array", "data": [int(x) for x in FA]}
+                            else:
+                                F = h_dense(FA)
                             dims = list(sel)
                             rng.shuffle(dims)
-                            out.append({"op": "scale", "X": rand_holder(rng, kind, shape), "F": F, "dims": dims,
-                                        "sel": sorted(sel), "tag": [f"F:{fk}", f"sel{len(sel)}of{N}"]})
+                            c = {"op": "scale", "X": rand_holder(rng, kind, shape), "F": F, "dims": dims, "fk": fk,
+                                 "sel": sorted(sel), "tag": [f"F:{fk}", f"sel{len(sel)}of{N}", f"Fmodes{min(len(sel), 2)}"]}
+                            if flay:
+                                c["lay"] = flay
+                                c["tag"].append(f"Flay:{flay}")
+                            out.append(c)
                     # malformed factor shape
                     FA = rand_array(rng, [shape[0] + 1], 0.2)
                     out.append({"op": "scale", "X": rand_holder(rng, kind, shape), "F": h_dense(FA), "dims": [0], "sel": [0],
                                 "valid": False})
-        return out
+        return with_layouts(rng, out)
 
 
 class TttFam(C02Family):
@@ -825,7 +983,7 @@ class TttFam(C02Family):
             s2[0] += 1
             out.append({"op": "ttt", "X": rand_holder(rng, "dense", s1), "Y": rand_holder(rng, "dense", s2), "xd": [0], "yd": [0],
                         "valid": False})
-        return out
+        return with_layouts(rng, out)
 
 
 class FullFam(C02Family):
@@ -837,7 +995,7 @@ class FullFam(C02Family):
         for _ in range(15 if tier == "quick" else 150):
             shape = pick_shape(rng, 1, 4, 3)
             out.append({"op": "full", "X": rand_holder(rng, rng.choice(["tucker", "sum", "kruskal"]), shape)})
-        return out
+        return with_layouts(rng, out)
 
 
 class CrossFam(Family):
@@ -858,7 +1016,8 @@ class CrossFam(Family):
             U, fs, lam = k_operand(rng, shape, rng.random() < 0.5)
             Y = rand_holder(rng, rng.choice(["dense", "sparse", "kruskal", "tucker"]), shape)
             out.append({"H": H, "vs": vs, "dims": dims, "excl": excl, "sel": sorted(sel), "ws": [byMode[d] for d in sorted(sel)],
-                        "U": U, "fs": fs, "lam": lam, "n": rng.randrange(N), "Y": Y})
+                        "U": U, "fs": fs, "lam": lam, "n": rng.randrange(N), "Y": Y,
+                        "lay": rng.choice(["C", "F", "strided", "T", "mix"])})
         return out
 
     def evaluate(self, cases):
@@ -880,10 +1039,11 @@ class CrossFam(Family):
                 continue
             impl = {}
             for kk, h in c["H"].items():
-                cc = {"op": "ttv", "X": h, "vs": c["vs"], "dims": c["dims"], "excl": c["excl"]}
+                lay = c.get("lay")
+                cc = {"op": "ttv", "X": h, "vs": c["vs"], "dims": c["dims"], "excl": c["excl"], "lay": lay}
                 r1 = call(run_impl, cc)
-                r2 = call(run_impl, {"op": "mttkrp", "X": h, "U": c["U"], "n": c["n"]})
-                r3 = call(run_impl, {"op": "innerprod", "X": h, "Y": c["Y"]})
+                r2 = call(run_impl, {"op": "mttkrp", "X": h, "U": c["U"], "n": c["n"], "lay": lay})
+                r3 = call(run_impl, {"op": "innerprod", "X": h, "Y": c["Y"], "lay": lay})
                 impl[kk] = (r1, r2, r3)
                 for r, s, nm in ((r1, spec_ttv, "ttv"), (r2, spec_mt, "mttkrp"), (r3, {"kind": "scalar", "value": spec_ip}, "innerprod")):
                     if "ok" not in r:
